@@ -58,9 +58,9 @@ struct Lcg {
 inline int16_t sat(long x) { return (int16_t)(x > 32767 ? 32767 : x < -32768 ? -32768 : x); }
 
 // Generates n samples of the chosen family; `desc` receives a description.
-inline std::vector<int16_t> recipe(pbt::Choices &c, size_t n, std::string &desc, bool allowSpeech = true) {
+inline std::vector<int16_t> recipe(pbt::Choices &c, size_t n, std::string &desc, bool allowSpeech = true, int speechWeight = 6) {
   std::vector<int16_t> v(n);
-  size_t fam = c.weighted({allowSpeech ? 6 : 0, 4, 1, 1, 1, 1, 1, 1, 1});
+  size_t fam = c.weighted({allowSpeech ? speechWeight : 0, 4, 1, 1, 1, 1, 1, 1, 1});
   switch (fam) {
   case 0: { // speech excerpt (optionally reversed / clipped)
     const auto &src = c.coin(25) ? goforwardFr() : goforward();
